@@ -302,3 +302,35 @@ Print Assumptions C11_ws_after_dot.
 Print Assumptions C11_ws_plain_case.
 Print Assumptions C11_ws_member_case.
 Print Assumptions C11_ws_nonvacuous.
+
+(* completion after `x.` for a typed operand x (WsTree.typed_entity, see C10_ws_typed_member_case; PARTIAL
+   in the same sense: the typing step is tied to the code by the differential run only) *)
+Theorem C11_ws_typed_member_case :
+  forall ws a stem t p i enc pi q up full lft,
+    distinct_stems ws = true -> nth_error ws a = Some (stem, t) -> flat_methods t = true ->
+    full_chain ws a t (descend p t) = Ans full -> path_up p t = (S i, enc) :: (pi, q) :: up ->
+    is_dot enc = false -> is_dot q = true -> first_child q = Some lft -> own_entity t lft = None ->
+    wcompletion ws a p =
+    match typed_entity ws a t (descend p t) lft with
+    | Outside => Outside
+    | Ans None => Ans []
+    | Ans (Some en) =>
+        match entity_chain ws a full en with
+        | Outside => Outside
+        | Ans None => Ans []
+        | Ans (Some ch) => Ans (labels_rhs ch)
+        end
+    end.
+Proof. exact wcompletion_typed_member_case. Qed.
+
+Example C11_ws_typed_nonvacuous :
+  ws_ok wsx2 /\ ws_acyclic wsx2 /\ distinct_stems wsx2 = true /\
+  wcompletion wsx2 3 (mkPos 2 3) = Ans [[102;99]; wx_Run; wx_Base; wx_fp] /\            (* q. , q : aChild *)
+  completion_member (absws wsx2) wx_aUser (Some [71;111]) wx_aChild = [[102;99]; wx_Run; wx_Base; wx_fp].
+Proof.
+  destruct wsx2_facts as (H1 & H2 & H3 & _ & H5 & _ & _ & H8).
+  split; [apply ws_okb_ok; exact H1|]. split; [apply ws_acyclicb_ok; exact H2|]. repeat split; assumption.
+Qed.
+
+Print Assumptions C11_ws_typed_member_case.
+Print Assumptions C11_ws_typed_nonvacuous.
